@@ -219,7 +219,19 @@ class Parser:
             self.eat()
             if self.at("id", "mut"):
                 self.eat()
-            x = self.eat("id")
+            if self.at("op", "("):                      # let (x, y) = EXPR;
+                self.eat()
+                names = []
+                while not self.at("op", ")"):
+                    if self.at("id", "mut"):
+                        self.eat()
+                    names.append(self.eat("id"))
+                    if self.at("op", ","):
+                        self.eat()
+                self.eat("op", ")")
+                x = tuple(names)
+            else:
+                x = self.eat("id")
             if self.at("op", ":"):
                 self.eat()
                 self.skip_type()
@@ -232,6 +244,13 @@ class Parser:
             e = self.expr()
             self.eat("op", ";")
             return ("return", e)
+        if self.at("id", "break"):
+            self.eat()
+            if self.at("op", ";"):
+                raise TErr("`break` without a value")
+            e = self.expr()
+            self.eat("op", ";")
+            return ("return", e)                         # the loop is the tail of the function: its value is the result
         if self.at("id", "if"):
             self.eat()
             c = self.expr(nostruct=True)
@@ -356,11 +375,31 @@ class Parser:
                 e = ("field", e, name)
         return e
 
+    def value_block(self):
+        """{ let …; … ; EXPR } used as a value"""
+        self.eat("op", "{")
+        lets = []
+        while self.at("id", "let"):
+            lets.append(self.stmt())
+        e = self.expr()
+        self.eat("op", "}")
+        return (lets, e)
+
     def atom(self):
         k, v = self.peek()
         if k == "num":
             self.eat()
             return ("num", v)
+        if k == "id" and v == "if":
+            self.eat()
+            c = self.expr(nostruct=True)
+            a = self.value_block()
+            self.eat("id", "else")
+            if self.at("id", "if"):
+                b = ([], self.atom())
+            else:
+                b = self.value_block()
+            return ("ifexpr", c, a, b)
         if k == "op" and v == "(":
             self.eat()
             e = self.expr()
@@ -433,6 +472,41 @@ class Emit:
         self.helpers = {}        # rust name -> lean name
         self.helper_defs = []
 
+    @staticmethod
+    def subst(e, env):
+        if isinstance(e, tuple):
+            if e[0] == "var" and e[1] in env:
+                return env[e[1]]
+            return tuple(Emit.subst(x, env) if isinstance(x, (tuple, list)) else x for x in e)
+        if isinstance(e, list):
+            return [Emit.subst(x, env) for x in e]
+        return e
+
+    def inline_helper(self, name, args):
+        """a private method whose body is `let`s followed by one expression and which takes the generator (e.g.
+        `fn draw_unit(&self, rng) -> f64 { rng.sample(self.unit_range) }`): its body with the arguments substituted"""
+        text = find_fn(self.cfg["helpers_from"], None, name)
+        pz = Parser(tokenize(text))
+        fname, params, body = pz.function()
+        ps = [p for p in params if p != "self"]
+        rng = self.cfg.get("rng")
+        takes_rng = any(a == ("var", rng) for a in args) if rng else False
+        if not takes_rng:
+            return None                                  # pure helpers become definitions of their own (see `helper`)
+        if len(ps) != len(args):
+            raise TErr("helper %s: arity" % name)
+        env = dict(zip(ps, args))
+        for st in body[:-1]:
+            if st[0] == "skip":
+                continue
+            if st[0] != "let" or isinstance(st[1], tuple):
+                raise TErr("helper %s taking the generator is not `let`s + one expression" % name)
+            env[st[1]] = ("paren", Emit.subst(st[2], env))
+        last = body[-1]
+        if last[0] not in ("tail", "return"):
+            raise TErr("helper %s taking the generator has no value" % name)
+        return ("paren", Emit.subst(last[1], env))
+
     def helper(self, name, nargs):
         """a private method of the same type called as self.NAME(args): translated to a pure definition"""
         if name in self.helpers:
@@ -453,6 +527,12 @@ class Emit:
         sub = Emit(dict(self.cfg, pure=True, rng=None))
         sub.helpers = self.helpers
         sub.helper_defs = self.helper_defs
+        if rt == "bool" and all(st[0] in ("let", "skip") for st in body[:-1]) and body and body[-1][0] in ("tail", "return"):
+            env = {}
+            for st in body[:-1]:
+                if st[0] == "let" and not isinstance(st[1], tuple):
+                    env[st[1]] = ("paren", Emit.subst(st[2], env))
+            body = [(body[-1][0], Emit.subst(body[-1][1], env))]
         lines = sub.stmts(body, lambda i: (_ for _ in ()).throw(TErr("helper %s falls off its end" % name)), ps, 1)
         lean = self.cfg["name"] + "_" + name
         self.helpers[name] = lean
@@ -499,6 +579,20 @@ class Emit:
             if op == ">=":
                 return "(%s ≤ %s)" % (b, a)
             return "(%s %s %s)" % (a, "≤" if op == "<=" else "<", b)
+        if k == "ifexpr":
+            c = self.expr(e[1], pre)
+            def blk(b):
+                lets, v = b
+                n0 = len(pre)
+                parts = []
+                for st in lets:
+                    pat = "(" + ", ".join(st[1]) + ")" if isinstance(st[1], tuple) else st[1]
+                    parts.append("let %s := %s" % (pat, self.expr(st[2], pre)))
+                parts.append(self.expr(v, pre))
+                if len(pre) != n0:
+                    raise TErr("uniform draw inside an if-expression branch")
+                return "(" + "; ".join(parts) + ")"
+            return "(if %s then %s else %s)" % (c, blk(e[2]), blk(e[3]))
         if k == "or":
             return "(%s ∨ %s)" % (self.expr(e[1], pre), self.expr(e[2], pre))
         if k == "and":
@@ -535,6 +629,9 @@ class Emit:
                 a = [self.expr(x, pre) for x in args]
                 return "(%s.%s %s)" % (self.cfg["ops"], f, " ".join([r] + a))
             if recv == ("var", "self") and self.cfg.get("helpers_from") is not None:
+                inl = self.inline_helper(name, args)
+                if inl is not None:
+                    return self.expr(inl, pre)
                 h = self.helper(name, len(args))
                 a = [self.expr(x, pre) for x in args]
                 return "(%s %s)" % (h, " ".join([self.cfg["helper_prefix_args"]] + a).strip())
@@ -610,7 +707,8 @@ class Emit:
                     for v in Emit.reads(s[2], set()):
                         if v in scope and v not in written and v not in car:
                             car.append(v)
-                    written.add(s[1])
+                    for nm in (s[1] if isinstance(s[1], tuple) else (s[1],)):
+                        written.add(nm)
                 elif s[0] == "if":
                     for v in Emit.reads(s[1], set()):
                         if v in scope and v not in written and v not in car:
@@ -648,12 +746,13 @@ class Emit:
             try:
                 v = self.expr(s[2], pre)
             except TErr:
-                if kind == "let" and not pre and self.cfg.get("lenient_lets"):
+                if kind == "let" and not pre and self.cfg.get("lenient_lets") and not isinstance(s[1], tuple):
                     self.opaque_vars.add(s[1])       # e.g. `let unit_range = Uniform::new(0., 1.).unwrap();`
                     return self.stmts(rest, k, scope, ind)
                 raise
-            lines = [pad + p for p in pre] + [pad + "let %s := %s" % (s[1], v)]
-            return lines + self.stmts(rest, k, scope + [s[1]], ind)
+            pat = "(" + ", ".join(s[1]) + ")" if isinstance(s[1], tuple) else s[1]
+            lines = [pad + p for p in pre] + [pad + "let %s := %s" % (pat, v)]
+            return lines + self.stmts(rest, k, scope + (list(s[1]) if isinstance(s[1], tuple) else [s[1]]), ind)
         if kind == "assert":
             pre = []
             c = self.expr(s[1], pre)
